@@ -61,7 +61,7 @@ def disk_mc(c, name, invariants=INV_ALL, keysets="MCKeySets1", timeout=900, work
 GEN_BASE = dict(NKeys=4, HistLen=12, SyncModes="{FALSE, TRUE}",
                 KeySets="{{1}, {2}, {3}, {1, 3}, {1, 2}, {2, 3, 4}}", Styles="{1, 2, 3, 4}",
                 EnvOps='{"rotate", "flush", "compactL0", "gc", "reopen"}', Drops='{"dropAll", "dropPrefix"}',
-                DropAt=0, Races="{}", MaxEnv=6, MaxRow=2, VlogMaxEntries=2)
+                DropAt=0, Races="{}", MultiAt=0, MultiN=0, MaxEnv=6, MaxRow=2, VlogMaxEntries=2)
 
 
 def generate(c, name, n, seed, workers=4, timeout=300, exhaustive=False, invariants=("Emit",), **over):
@@ -104,7 +104,7 @@ def features(case):
     fs = set()
     for o in case["ops"]:
         fs.add(o["op"])
-        for w in o.get("w", []):
+        for w in list(o.get("w", [])) + [x for t in o.get("txs", []) for x in t]:
             fs.add("write:" + ("del" if w["del"] else "big" if w["big"] else "small"))
     return fs
 
@@ -192,6 +192,8 @@ def allowed_states(case, im):
     o = ops[im["op"]]
     if o["op"] in ("dropAll", "dropPrefix"):
         return set(tuple(m) for m in o["mid"]), "drop"
+    if o["op"] == "multi":      # concurrent committers: any prefix of the enqueued transactions
+        return {vis[done]} | set(tuple(p) for p in o["pre"]), "inflight"
     return {vis[done], vis[done + 1]}, "inflight"
 
 
@@ -206,33 +208,44 @@ def judge(case, meta, im, obs, kind):
         return [("open-error " + err_class(obs["openErr"]), obs["openErr"][:300])]
     # commit id -> real version, and what each commit wrote
     ts_of, writes = {}, {}
+
+    def txs_of(o):
+        if o["op"] in ("commit", "batch"):
+            return [o["w"]]
+        if o["op"] == "multi":
+            return o["txs"]
+        return []
     for i, o in enumerate(ops):
-        if o["op"] in ("commit", "batch") and i < len(meta["commitTs"]):
-            u = o["w"][0]["v"]
-            ts_of[u] = meta["commitTs"][i]
-            writes[u] = {w["k"]: w for w in o["w"]}
+        tx = txs_of(o)
+        for j, w in enumerate(tx):
+            u = w[0]["v"]
+            writes[u] = {x["k"]: x for x in w}
+            if i < len(meta["commitTs"]) and meta["commitTs"][i]:
+                ts_of[u] = meta["commitTs"][i] - (len(tx) - 1 - j)     # consecutive commit timestamps
     issued = im["done"] + (1 if im["inop"] else 0)
     real2u = {}
     for i, o in enumerate(ops[:issued]):
-        if o["op"] in ("commit", "batch"):
-            u = o["w"][0]["v"]
+        for w in txs_of(o):
+            u = w[0]["v"]
             if u in ts_of:
                 real2u[ts_of[u]] = u
     # the in-flight commit has no recorded version yet: it is the next one
     rv = [0] * nk
     seen = set()
     dump = [v for v in (obs["dump"] or []) if v["key"] != "zz-probe"]
-    inflight_u = None
-    if im["inop"] and im["op"] >= 0 and ops[im["op"]]["op"] in ("commit", "batch"):
-        inflight_u = ops[im["op"]]["w"][0]["v"]
+    inflight = []
+    if im["inop"] and im["op"] >= 0:
+        inflight = [w[0]["v"] for w in txs_of(ops[im["op"]])]
+    done_ts = [ts_of[w[0]["v"]] for o in ops[:im["done"]] for w in txs_of(o) if w[0]["v"] in ts_of]
+    base_ts = max([0] + done_ts)
     for v in dump:
         k = v["k"]
         if k < 1 or k > nk:
             out.append(("foreign-key", "%r@%d" % (v["key"], v["ts"])))
             continue
         u = real2u.get(v["ts"])
-        if u is None and inflight_u is not None and v["ts"] > max([0] + list(real2u)):
-            u = inflight_u
+        if u is None and inflight and 0 < v["ts"] - base_ts <= len(inflight):
+            u = inflight[v["ts"] - base_ts - 1]      # the in-flight commits get the next versions
         w = writes.get(u, {}).get(k) if u is not None else None
         if w is None:
             out.append(("foreign-version", "key %d version %d is not a write of the history" % (k, v["ts"])))
@@ -889,6 +902,13 @@ def manifest_replay(c, cases, label, everybyte=1, nproc=None, timeout=1200):
                         dev.append(("manifest:truncated-replay %s" % cls, "cut at byte %d (record %d): want %s trunc %d, got %s trunc %s err %r" % (
                             t["x"], k, want, bounds[k], t["man"], t["trunc"], t["err"]), i))
                         break
+                    if t.get("afterRun") and "prefixesThenDelete" in h:
+                        want2 = h["prefixesThenDelete"][k]
+                        if t["afterErr"] or not _man_eq(t["after"], want2):
+                            dev.append(("manifest:append-after-torn-tail", "cut at byte %d (record %d, %d bytes into the next), re-opened, "
+                                        "delete(1) added, replayed: want %s, got %s err %r" % (
+                                            t["x"], k, t["x"] - bounds[k], want2, t["after"], t["afterErr"]), i))
+                            break
                 else:
                     nzero += 1
                     if t["err"] or not _man_eq(t["man"], want):
